@@ -132,6 +132,17 @@ SPEC = [
          opaque={"xp.pi": "pi"}),       # argument of the cosine, elementwise in ts; the local chirp_phase (with its guarded negation) is inlined
     dict(group="11", name="chi2_df", file="setigen/frame.py", cls="Frame", func="__init__", what="assign:self.chi2_df",
          params=[("df", "Q"), ("dt", "Q")], ret="Z"),
+    dict(group="11", name="chi2_std", file="setigen/frame.py", cls="Frame", func="add_noise", what="nth:x_std:1",      # the deviation recorded for chi-squared noise
+         params=[("x_mean", "Q"), ("chi2_df", "Z"), ("sqrt_2k", "Q")], ret="Q", opaque={"np.sqrt(2 * self.chi2_df)": "sqrt_2k"}),
+    dict(group="11", name="chi2_std_obs", file="setigen/frame.py", cls="Frame", func="add_noise_from_obs", what="nth:x_std:1",
+         params=[("x_mean", "Q"), ("chi2_df", "Z"), ("sqrt_2k", "Q")], ret="Q", opaque={"np.sqrt(2 * self.chi2_df)": "sqrt_2k"}),
+    # the bundled observation table: every column is scaled by dt / obs_dt, freshly on every call (elementwise on the column)
+    dict(group="11", name="obs_mean_entry", file="setigen/frame.py", cls="Frame", func="add_noise_from_obs", what="nth:x_mean_array:1",
+         params=[("row", "Q"), ("dt", "Q")], ret="Q", opaque={"sample_noise_params[:, 0]": "row"}),
+    dict(group="11", name="obs_std_entry", file="setigen/frame.py", cls="Frame", func="add_noise_from_obs", what="nth:x_std_array:1",
+         params=[("row", "Q"), ("dt", "Q")], ret="Q", opaque={"sample_noise_params[:, 1]": "row"}),
+    dict(group="11", name="obs_min_entry", file="setigen/frame.py", cls="Frame", func="add_noise_from_obs", what="nth:x_min_array:1",
+         params=[("row", "Q"), ("dt", "Q")], ret="Q", opaque={"sample_noise_params[:, 2]": "row"}),
     dict(group="11", name="stream_noise_var", file="setigen/voltage/data_stream.py", cls="DataStream", func="add_noise", what="assign:self.noise_std",
          params=[("noise_std", "Q"), ("v_std", "Q")], ret="Q", strip_call="xp.sqrt"),
 ]
@@ -315,7 +326,7 @@ def zlit(n):
 
 
 class Tr(object):
-    def __init__(self, entry, fn=None, cls_body=None):
+    def __init__(self, entry, fn=None, cls_body=None, picked=None):
         self.types = dict(entry["params"])
         self.opaque = entry.get("opaque", {})
         self.strip_call = entry.get("strip_call")
@@ -323,6 +334,7 @@ class Tr(object):
         self.fn = fn
         self.cls_body = cls_body or []
         self.depth = 0
+        self.picked = picked
 
     def local_def(self, name):
         """expression a local name stands for: its single assignment, or the two assignments of one if/else statement"""
@@ -354,7 +366,7 @@ class Tr(object):
                     expr = ast.BinOp(left=expr, op=st.op, right=st.value)
             return expr
         if len(hits) == 1:
-            if hits[0] in self.fn.body or self._only_in_loops(hits[0]):
+            if hits[0] in self.fn.body or self._only_in_loops(hits[0]) or self._same_block_before(hits[0]):
                 return hits[0].value
             return None
         if len(hits) >= 2 and all(h in self.fn.body for h in hits):
@@ -371,6 +383,18 @@ class Tr(object):
                 if isinstance(st, ast.If) and len(st.body) == 1 and len(st.orelse) == 1 and st.body[0] is hits[0] and st.orelse[0] is hits[1]:
                     return ast.IfExp(test=st.test, body=hits[0].value, orelse=hits[1].value)
         return None
+
+    def _same_block_before(self, hit):
+        """the single assignment sits earlier in the very statement list that holds the translated statement: both run, or neither"""
+        if self.picked is None:
+            return False
+        for m in ast.walk(self.fn):
+            for fld in ("body", "orelse", "finalbody"):
+                blk = getattr(m, fld, None)
+                if isinstance(blk, list) and hit in blk:
+                    later = blk[blk.index(hit) + 1:]
+                    return any(x is self.picked for st in later for x in ast.walk(st))
+        return False
 
     def _only_in_loops(self, node):
         """the assignment sits in the body of for-loops / with-blocks only (executed whenever reached), not under an `if`"""
@@ -561,7 +585,7 @@ def translate(repo):
             fn = find_func(trees[path], e["cls"], e["func"])
             node = pick(fn, e["what"])
             cls_body = next((c.body for c in trees[path].body if isinstance(c, ast.ClassDef) and c.name == e["cls"]), [])
-            txt, ty = Tr(e, fn, cls_body).tr(node)
+            txt, ty = Tr(e, fn, cls_body, picked=node).tr(node)
             if ty != e["ret"]:
                 if ty == "Z" and e["ret"] == "Q":
                     txt = "(inject_Z %s)" % txt
